@@ -6,7 +6,7 @@
     Reading of the statements: the kick step is per sample of the flattened vector dimension and per particle (the three
     interpolated force components are arguments); _E_plus_vB_field is per sample and per grid index (the potential grid is an
     argument). *)
-From Coq Require Import Reals ZArith QArith List.
+From Coq Require Import Reals ZArith QArith Bool List.
 From Cheetah Require Import SpaceCharge.Igf SpaceCharge.Cic SpaceCharge.Hockney Gen.ScGenBase.
 From Cheetah.Gen Require Import ScGen.
 From Cheetah.Gen Require Import ScGenEquiv.
@@ -80,3 +80,60 @@ Theorem trx_E_plus_vB_field : forall (nx ny nz : nat) (cx cy cz gamma : Q) (phi 
   ft == field (nx, ny, nz) (cx, cy, cz) (ig2_of gamma) 2 phi i j k.
 Proof. exact gen_E_plus_vB_field_eq. Qed.
 Print Assumptions trx_E_plus_vB_field.
+
+(** cloud-in-cell code (_deposit_charge_on_grid, _compute_forces), per sample and per particle.  [geom_of dx dy dz cx cy cz nx ny nz]
+    is the geometry (grid_dimensions, cell_size, grid_shape); [sp_of x y z q s] a particle at (x, y, z) with charge q and survival s. *)
+Theorem trx_deposit_terms : forall x y z dx dy dz cx cy cz nx ny nz q s,
+  Forall2 (fun a b : (Z * Z * Z) * bool * Q => fst (fst a) = fst (fst b) /\ snd (fst a) = snd (fst b) /\ snd a == snd b)
+    (gen_deposit_terms x y z dx dy dz cx cy cz nx ny nz q s)
+    (let g := mkgeom (dx, dy, dz) (cx, cy, cz) (nx, ny, nz) in let p := mksp x 0 y 0 z 0 q s in
+     List.map (fun c => (c, valid (g_shape g) c, cw (nrm g p) c * (q * s))) (corners (cell_of (nrm g p)))).
+Proof. exact gen_deposit_terms_eq. Qed.
+Print Assumptions trx_deposit_terms.
+
+Theorem trx_deposit_contrib : forall x y z dx dy dz cx cy cz nx ny nz q s (k : Z * Z * Z),
+  sumQ (List.map (fun e : (Z * Z * Z) * bool * Q => let '(c, v, w) := e in if idx_eqb c k && v then w else 0)
+                 (gen_deposit_terms x y z dx dy dz cx cy cz nx ny nz q s))
+  == contrib (mkgeom (dx, dy, dz) (cx, cy, cz) (nx, ny, nz)) (mksp x 0 y 0 z 0 q s) k * (q * s).
+Proof. exact gen_deposit_contrib. Qed.
+Print Assumptions trx_deposit_contrib.
+
+Theorem trx_deposit_scale : forall dx dy dz cx cy cz nx ny nz,
+  gen_deposit_scale cx cy cz == inv_vol (mkgeom (dx, dy, dz) (cx, cy, cz) (nx, ny, nz)).
+Proof. exact gen_deposit_scale_eq. Qed.
+Print Assumptions trx_deposit_scale.
+
+Theorem trx_deposit_rho : forall dx dy dz cx cy cz nx ny nz (ps : list spart) (k : Z * Z * Z),
+  rho (mkgeom (dx, dy, dz) (cx, cy, cz) (nx, ny, nz)) ps k ==
+  sumQ (List.map (fun p => hit_sum k (gen_deposit_terms (s_x p) (s_y p) (s_z p) dx dy dz cx cy cz nx ny nz (s_q p) (s_s p))) ps)
+  * gen_deposit_scale cx cy cz.
+Proof. exact gen_deposit_rho. Qed.
+Print Assumptions trx_deposit_rho.
+
+Theorem trx_deposit_weights : forall x y z dx dy dz cx cy cz nx ny nz,
+  Forall2 Qeq (gen_deposit_weights x y z dx dy dz cx cy cz nx ny nz)
+    (let g := mkgeom (dx, dy, dz) (cx, cy, cz) (nx, ny, nz) in let p := mksp x 0 y 0 z 0 0 0 in
+     List.map (cw (nrm g p)) (corners (cell_of (nrm g p)))).
+Proof. exact gen_deposit_weights_eq. Qed.
+Print Assumptions trx_deposit_weights.
+
+Theorem trx_gather_weights : forall x y z dx dy dz cx cy cz nx ny nz,
+  Forall2 Qeq (gen_gather_weights x y z dx dy dz cx cy cz nx ny nz)
+    (let g := mkgeom (dx, dy, dz) (cx, cy, cz) (nx, ny, nz) in let p := mksp x 0 y 0 z 0 0 0 in
+     List.map (cw (nrm g p)) (corners (cell_of (nrm g p)))).
+Proof. exact gen_gather_weights_eq. Qed.
+Print Assumptions trx_gather_weights.
+
+Theorem trx_weights_shared : forall x y z dx dy dz cx cy cz nx ny nz,
+  Forall2 Qeq (gen_deposit_weights x y z dx dy dz cx cy cz nx ny nz) (gen_gather_weights x y z dx dy dz cx cy cz nx ny nz).
+Proof. exact gen_weights_shared. Qed.
+Print Assumptions trx_weights_shared.
+
+Theorem trx_gather_terms : forall x y z dx dy dz cx cy cz nx ny nz e (F0 F1 F2 : Z * Z * Z -> Q),
+  let g := mkgeom (dx, dy, dz) (cx, cy, cz) (nx, ny, nz) in let p := mksp x 0 y 0 z 0 0 0 in
+  let l := gen_gather_terms x y z dx dy dz cx cy cz nx ny nz e F0 F1 F2 in
+  sumQ (List.map (fun t => fst (fst t)) l) == gather g e F0 p /\
+  sumQ (List.map (fun t => snd (fst t)) l) == gather g e F1 p /\
+  sumQ (List.map (fun t => snd t) l) == gather g e F2 p.
+Proof. exact gen_gather_terms_eq. Qed.
+Print Assumptions trx_gather_terms.
